@@ -563,6 +563,9 @@ def setup_fs(ex, dest_state='absent', chown_permitted=True):
         # nothing but names that start with a dot (a home directory skeleton): still not empty
         fs.put_file(DEST + '/.profile', [('old', 0, 3)])
         fs.put_file(DEST + '/.config/app', [('old2', 0, 3)])
+    if dest_state == 'only-lost+found':
+        # the top of a freshly made file system -- or anything else that happens to be called that: still not empty
+        fs.put_file(DEST + '/lost+found/precious', [('precious', 0, 8)])
     if dest_state == 'only-symlinks':
         # nothing but symbolic links: one of them named like an archived file and pointing outside the destination
         fs.mkdirs(DEST)
@@ -819,11 +822,13 @@ def make_contain(prog, stitched):
             u = 'alice' if own else None
             mode = ex.fresh_int('mode', 0, 0o7777)
             if stitched:
+                # (in apath order: the entries of a directory come before the contents of its subdirectories)
                 old = [E('/', 'Dir', mode=0o755, sec=1), E('/a', 'Dir', mode=0o755, user=u, sec=2), E('/d', 'Dir', mode=0o755, sec=3),
+                       E('/a/lnk', 'Symlink', target='x', user=u, sec=8, mode=0o777),
                        E('/a/sub', 'Dir', mode=0o755, user=u, sec=5),
+                       E('/a/x', 'File', size=5, cls=1, mode=mode, user=u, sec=4),
                        E('/a/sub/sentinel2', 'File', size=6, cls=2, mode=mode, user=u, sec=6),
-                       E('/a/sub/y', 'File', size=4, cls=3, mode=0o644, sec=7),
-                       E('/a/x', 'File', size=5, cls=1, mode=mode, user=u, sec=4)]
+                       E('/a/sub/y', 'File', size=4, cls=3, mode=0o644, sec=7)]
                 new = [E('/', 'Dir', mode=0o755, sec=1), E('/a', 'Symlink', target=tgt, user=u, sec=9, mode=0o777)]
                 put_band(ex, st, 0, old)
                 put_band(ex, st, 1, new, closed=False)
@@ -865,7 +870,7 @@ def make_contain(prog, stitched):
     return mk_
 
 
-DEST_STATES = ['absent', 'empty', 'populated', 'only-symlinks', 'only-dotfiles']
+DEST_STATES = ['absent', 'empty', 'populated', 'only-symlinks', 'only-dotfiles', 'only-lost+found']
 
 
 def make_refuse(prog):
@@ -889,7 +894,7 @@ def make_refuse(prog):
             before = {p: n.state() for p, n in fs.nodes.items()}
             r = run_restore(ex, ar, DEST, restore_options(ex, overwrite=overwrite, subtree=subtree))
             problems = []
-            if state in ('populated', 'only-symlinks', 'only-dotfiles') and not overwrite:
+            if state in ('populated', 'only-symlinks', 'only-dotfiles', 'only-lost+found') and not overwrite:
                 if r.variant == 0 or variant_name(ex, r.fields[0]) != 'DestinationNotEmpty':
                     problems.append('restore into a non-empty destination without overwrite was not refused')
                 for p, stt in before.items():
